@@ -391,6 +391,36 @@ fn set_total_obligation<const N: usize>() {
 #[kani::proof]
 #[kani::unwind(12)]
 fn c15_set_get_extension_4() { set_get_obligation::<4>(); }
+/// the common case: stamping the first extension on a header that has none
+#[kani::proof]
+#[kani::unwind(8)]
+fn c15_set_get_extension_fresh() {
+    let mut h = any_header(0, None);
+    let id: u8 = kani::any();
+    kani::assume(id >= 1 && id <= 14);
+    let d: [u8; 3] = kani::any();
+    assert!(h.set_extension(id, &d).is_ok());
+    {
+        let ext = h.extension.as_ref().unwrap();
+        assert!(ext.profile == 0xBEDE && ext.data.len() == 4);
+        assert!(ext.data[0] == (id << 4) | 2 && ext.data[1..4] == d[..]);
+    }
+    let g = h.get_extension(id).unwrap();
+    assert!(g[..] == d[..]);
+    assert!(h.validate().is_ok() && h.encoded_len() == 12 + 4 + 4);
+    core::mem::forget(g); core::mem::forget(h);
+}
+/// invalid arguments are rejected and leave the header untouched
+#[kani::proof]
+#[kani::unwind(8)]
+fn c15_set_extension_rejects_bad_args() {
+    let mut h = any_header(0, None);
+    let id: u8 = kani::any();
+    kani::assume(id == 0 || id >= 15);
+    assert!(h.set_extension(id, &[1, 2]).is_err() && h.extension.is_none());
+    assert!(h.set_extension(3, &[]).is_err() && h.extension.is_none());
+    assert!(h.set_extension(3, &[0u8; 17]).is_err() && h.extension.is_none());
+}
 #[kani::proof]
 #[kani::unwind(12)]
 fn c15_set_keeps_other_extension_4() { set_keeps_others_obligation::<4>(); }
